@@ -5,6 +5,8 @@ cd "$(dirname "$0")"
 export PYTHONDONTWRITEBYTECODE=1
 /venv/bin/python harness/translate.py || exit 1
 cd lean
+# one invocation for everything first (full parallelism); failures are reported per target below
+lake build PyamgV.Driver.Main $(for f in PyamgV/Props/C*.lean; do echo PyamgV.Props.$(basename "$f" .lean); done) >/dev/null 2>&1
 lake build PyamgV.Driver.Main 2>&1 | grep -E "^error|✖|Build completed" | tail -5
 [ "${PIPESTATUS[0]}" = 0 ] || { echo "setup: the Lean driver does not build"; exit 1; }
 for f in PyamgV/Props/C*.lean; do
